@@ -5,7 +5,7 @@ exit 0  property held on everything explored (known findings are printed as KNOW
 exit 1  VIOLATION property=<id> replay=<path>   (confirmed natively, not a known finding)
 exit 2  inconclusive (unsupported construct, budget, solver unknown, engine disagreement, vacuous obligation)
 """
-import os, sys, json, time, importlib, traceback, multiprocessing, hashlib, random
+import os, sys, json, time, importlib, traceback, multiprocessing, hashlib, random, pickle, tempfile, shutil, gc
 import z3
 from . import build
 from .core import *
@@ -23,20 +23,88 @@ def world(crates, mode='on'):
         _world[key] = fns
     return _world[key]
 
+# pure query functions of the model crate that are summarised (state merging) instead of forking their callers
+MERGE_DEFAULT = ['>::can_reach', '>::dead_head_time_between', '>::dead_head_distance_between', '>::idle_time_between',
+                 '>::minimal_duration_between_nodes', '>::distance', '>::travel_time']
 class JobCtx:
     """one symbolic-execution job inside a worker process"""
     def __init__(self, name, crates, mode='on', extra_models=(), **exkw):
         self.name = name; self.crates = crates; self.mode = mode
         self.fns = world(crates, mode)
         self.ex = Exec(self.fns, list(extra_models) + M.STD_MODELS, overflow_checks=(mode == 'on'), **exkw)
+        self.ex.merge_patterns = list(MERGE_DEFAULT)
         self.solver = z3.Solver(); self.solver.set('timeout', 120_000)
         self.t0 = time.time()
         self.obligations = 0; self.discharged = 0; self.queries = 0; self.solver_s = 0.0
         self.cex = []; self.inconclusive = []; self.samples = []; self.reached = 0; self.panics = {}
         self.covers = set(); self.paths = 0; self.notes = []; self.validated = 0
+    COUNTERS = ('obligations', 'discharged', 'queries', 'solver_s', 'reached', 'paths', 'validated')
+    def _reset_counters(self):
+        for k in self.COUNTERS: setattr(self, k, 0)
+        self.cex = []; self.inconclusive = []; self.samples = []; self.panics = {}; self.covers = set(); self.notes = []
+        ex = self.ex
+        for k in ex.stats: ex.stats[k] = 0
+        ex.covers = set(); ex.used_fns = set(); ex.used_models = set(); ex.abstracted = 0
+    def _partial(self):
+        ex = self.ex
+        d = dict((k, getattr(self, k)) for k in self.COUNTERS)
+        d.update(cex=self.cex, inconclusive=self.inconclusive, samples=self.samples, panics=self.panics, covers=self.covers | ex.covers, notes=self.notes,
+                 stats=dict(ex.stats), used_fns=ex.used_fns, used_models=ex.used_models, abstracted=ex.abstracted)
+        return d
+    def _merge(self, d):
+        ex = self.ex
+        for k in self.COUNTERS: setattr(self, k, getattr(self, k) + d[k])
+        self.cex += d['cex']; self.inconclusive += d['inconclusive']; self.samples = (self.samples + d['samples'])[:3]
+        for k, v in d['panics'].items(): self.panics[k] = self.panics.get(k, 0) + v
+        self.covers |= d['covers']; self.notes += d['notes']
+        for k, v in d['stats'].items(): ex.stats[k] = ex.stats.get(k, 0) + v
+        ex.used_fns |= d['used_fns']; ex.used_models |= d['used_models']; ex.abstracted += d['abstracted']
+    def child_exit(self, extra_inconclusive=None):
+        """called in a forked child when its path (and post-processing) is finished"""
+        if extra_inconclusive: self.inconclusive.append(extra_inconclusive)
+        try:
+            with open(os.path.join(self._forkdir, '%d.pkl' % os.getpid()), 'wb') as f: pickle.dump(self._partial(), f)
+        except BaseException as e:
+            sys.stderr.write('[child %d] cannot report: %s: %s\n' % (os.getpid(), type(e).__name__, e)); sys.stderr.flush(); os._exit(4)
+        os._exit(0)
     def explore(self, body, max_paths=200000):
-        paths = self.ex.explore(body, max_paths=max_paths)
-        self.paths += len(paths); return paths
+        """yields (pc, result | Panic) for every feasible path.  Fork mode (default): each path's post-processing
+        runs in the process that explored it; partial results are merged into this JobCtx in the root process."""
+        if os.environ.get('VERIF_FORK', '1') != '1':
+            paths = self.ex.explore(body, max_paths=max_paths)
+            self.paths += len(paths)
+            for it in paths: yield it
+            return
+        ex = self.ex
+        os.makedirs(os.path.join(build.BUILD, 'forks'), exist_ok=True)
+        self._forkdir = tempfile.mkdtemp(dir=os.path.join(build.BUILD, 'forks'))
+        root = os.getpid(); ex.fork_mode = True; ex.is_child = False
+        ex.child_hook = self._reset_counters
+        ex.replay = []; ex.replay_pos = 0; ex.decisions = []; ex.pc = []; ex.stack = []
+        PATH_RNG.clear()
+        gc.collect(); gc.freeze()
+        global _current_child_ctx
+        _current_child_ctx = self
+        item = None; err = None
+        try:
+            r = body(); item = (list(ex.pc), r)
+        except PathAbort: pass
+        except Panic as p: item = (list(ex.pc), p)
+        except Unsupported as e:
+            if os.getpid() != root: self.child_exit('%s: %s' % (self.name, str(e)[:600]))
+            err = e
+        if item is not None:
+            self.paths += 1
+            yield item
+        if os.getpid() != root: self.child_exit()
+        ex.fork_mode = False; _current_child_ctx = None
+        gc.unfreeze()
+        for fn in os.listdir(self._forkdir):
+            with open(os.path.join(self._forkdir, fn), 'rb') as f: self._merge(pickle.load(f))
+        shutil.rmtree(self._forkdir, ignore_errors=True)
+        if ex.child_failures: self.inconclusive.append('%s: %d forked explorers died' % (self.name, ex.child_failures)); ex.child_failures = 0
+        if err is not None: raise err
+        if self.paths > max_paths: raise Unsupported('path budget (%d) exceeded' % max_paths)
     def sat(self, pc, *extra):
         """model of pc_global ∧ pc ∧ extra, or None"""
         s = self.solver; s.push(); s.add(*self.ex.pc_global); s.add(*pc); s.add(*extra)
@@ -48,6 +116,7 @@ class JobCtx:
     def prove(self, pc, formula, clause, mk_cex=None):
         """obligation: pc ⇒ formula.  Returns True if discharged; records a counterexample otherwise."""
         self.obligations += 1
+        if formula is True: self.discharged += 1; return True
         if isinstance(formula, bool): formula = z3.BoolVal(formula)
         f = z3.simplify(formula)
         if z3.is_true(f): self.discharged += 1; return True
@@ -63,7 +132,7 @@ class JobCtx:
         """a path ended in a Rust panic under a satisfiable pc: violation unless `allowed(msg)`"""
         self.panics[p.msg] = self.panics.get(p.msg, 0) + 1
         if allowed and allowed(p.msg): return True
-        return self.prove(pc, z3.BoolVal(False), clause, mk_cex)
+        return self.prove(pc, False, clause, mk_cex)
     def sample(self, s):
         if len(self.samples) < 3: self.samples.append(s)
     def result(self):
@@ -75,19 +144,26 @@ class JobCtx:
                     fns=sorted(ex.used_fns), models=sorted(ex.used_models), wall_s=round(time.time() - self.t0, 2), notes=self.notes,
                     abstracted_products=ex.abstracted, validated=self.validated)
 
+_current_child_ctx = None
 def _run_job(spec):
     modname, func, kwargs, name = spec
-    t0 = time.time()
+    t0 = time.time(); root = os.getpid()
     try:
         mod = importlib.import_module(modname)
         r = getattr(mod, func)(name=name, **kwargs)
         return r
-    except Unsupported as e:
-        return dict(name=name, inconclusive=['%s: %s' % (name, str(e)[:600])], wall_s=round(time.time() - t0, 2), cex=[], paths=0, obligations=0, discharged=0)
-    except Exception as e:
+    except BaseException as e:
+        if os.getpid() != root:
+            # a forked explorer must never return into the worker loop
+            try:
+                sys.stderr.write('[child %d] %s: %s\n%s\n' % (os.getpid(), type(e).__name__, str(e)[:300], traceback.format_exc()[-800:])); sys.stderr.flush()
+                _current_child_ctx.child_exit('%s: %s in post-processing: %s' % (name, type(e).__name__, str(e)[:500]))
+            finally: os._exit(3)
+        if not isinstance(e, Exception): raise
+        if isinstance(e, Unsupported):
+            return dict(name=name, inconclusive=['%s: %s' % (name, str(e)[:600])], wall_s=round(time.time() - t0, 2), cex=[], paths=0, obligations=0, discharged=0)
         return dict(name=name, inconclusive=['%s: internal error %s: %s\n%s' % (name, type(e).__name__, str(e)[:400], traceback.format_exc()[-1500:])],
                     wall_s=round(time.time() - t0, 2), cex=[], paths=0, obligations=0, discharged=0)
-
 def load_known():
     p = os.path.join(VERIF, 'known_findings.json')
     return json.load(open(p)) if os.path.exists(p) else []
